@@ -164,6 +164,11 @@ def run(ctx):
     ctx.cov['evaluations'] = total
     ctx.cov['correspondence']['corr-M asm() domain'] = {'cells': total, 'mismatches': len(mism), 'exhaustive': True,
                                                          'split_port_variables': [v['name'] for v in vars_ if v['memory'] in ('Superchip',) or v['memory'].startswith('MemoryOnChip')]}
+    # corr-M: the split-port lowering templates of Model/GenSplit.v (proved correct in Props/C17.v) vs -O0 output
+    from lib.gentpl import run_gentpl
+    ntpl, tpl_mism = run_gentpl()
+    tpl_mism = [m for m in tpl_mism if m['id'].startswith('slisting')]
+    ctx.cov['correspondence']['corr-M split-port lowering templates'] = {'templates': 25, 'mismatches': len(tpl_mism), 'exhaustive': True}
     findings = [f for f in ctx.findings if f.get('status') == 'open']
     n_prog = 400 if quick else 8000
     stats = {}
@@ -214,6 +219,8 @@ def run(ctx):
         ctx.violation('ports', v)
     if mism and not viol:
         ctx.violation_noinput('Model/AsmSel.v no longer matches asm() on %d cells; first: %s' % (len(mism), json.dumps(mism[0])[:1500]), 'corr-M:asm_sel')
+    elif tpl_mism and not viol:
+        ctx.violation_noinput('Model/GenSplit.v no longer matches the generator on %d split-port templates; first: %s' % (len(tpl_mism), json.dumps(tpl_mism[0])[:1500]), 'corr-M:gen_split')
     ctx.cov['rule'] = ('generated programs whose char/short/array variables are randomly declared superchip: assignment, compound assignment, '
                        '++/--, shifts, indexing, comparison, parameter passing; co-executed with the split-port memory model on; '
                        'non-trivial = programs with no fault and the same final state as their ordinary-variable twin')
